@@ -497,7 +497,10 @@ class FlatteningRestriction(klass.GenericEquality, base):
     """Flatten the values passed in and apply the nested restriction."""
 
     __slots__ = __attr_comparison__ = ("dont_iter", "restriction", "negate")
-    __hash__ = object.__hash__
+
+    def __hash__(self):
+        # equality is attribute based (GenericEquality), so the hash has to be too
+        return hash((self.dont_iter, self.restriction, self.negate))
 
     def __init__(self, dont_iter, childrestriction, negate=False):
         """
@@ -531,9 +534,10 @@ class FunctionRestriction(klass.GenericEquality, base):
     """Convenience class for creating special restrictions."""
 
     __attr_comparison__ = __slots__ = ("func", "negate")
-    # TODO: figure out a correct way to say "hashable, but the hash is the id".
-    # Type checker is pissy about just using a raw id()
-    __hash__ = object.__hash__
+
+    def __hash__(self):
+        # equality is attribute based (GenericEquality), so the hash has to be too
+        return hash((self.func, self.negate))
 
     def __init__(self, func, negate=False):
         """
@@ -556,8 +560,11 @@ class FunctionRestriction(klass.GenericEquality, base):
 class StrConversion(klass.GenericEquality):
     """convert passed in data to a str object"""
 
-    __hash__ = object.__hash__
     __attr_comparison__ = __slots__ = ("restrict",)
+
+    def __hash__(self):
+        # equality is attribute based (GenericEquality), so the hash has to be too
+        return hash((self.restrict,))
 
     def __init__(self, restrict):
         self.restrict = restrict
